@@ -38,6 +38,7 @@ type HOp struct {
 	Nil  bool        `json:"nil,omitempty"`  // the script is set to nil instead of B
 	Data bool        `json:"data,omitempty"` // quote: the data fee is replaced (else the standard fee)
 	Unit ref.FeeUnit `json:"unit,omitempty"` // quote: new mining rate
+	Tag  int         `json:"tag,omitempty"`  // quote: FeeType field of the registered fee object (ref.FeeTag*)
 	Q    int         `json:"q,omitempty"`    // query mask after this step (0 = every query)
 }
 
@@ -353,14 +354,10 @@ func (s *hState) apply(op HOp) (string, error) {
 	case "quote": // AddQuote replaces one fee of the quote object every call has been given
 		if op.Data {
 			s.q.Data = op.Unit
-			s.fq.AddQuote(bt.FeeTypeData, &bt.Fee{FeeType: bt.FeeTypeData,
-				MiningFee: bt.FeeUnit{Satoshis: op.Unit.Sat, Bytes: op.Unit.Bytes},
-				RelayFee:  bt.FeeUnit{Satoshis: s.q.DataRelay.Sat, Bytes: s.q.DataRelay.Bytes}})
+			s.fq.AddQuote(bt.FeeTypeData, ref.FeeLibFee(bt.FeeTypeData, op.Unit, s.q.DataRelay, op.Tag))
 		} else {
 			s.q.Std = op.Unit
-			s.fq.AddQuote(bt.FeeTypeStandard, &bt.Fee{FeeType: bt.FeeTypeStandard,
-				MiningFee: bt.FeeUnit{Satoshis: op.Unit.Sat, Bytes: op.Unit.Bytes},
-				RelayFee:  bt.FeeUnit{Satoshis: s.q.StdRelay.Sat, Bytes: s.q.StdRelay.Bytes}})
+			s.fq.AddQuote(bt.FeeTypeStandard, ref.FeeLibFee(bt.FeeTypeStandard, op.Unit, s.q.StdRelay, op.Tag))
 		}
 	// ---- the object is used for something else in between ----------------------------
 	case "touch": // serialisations, id, JSON: answers are thrown away
@@ -584,7 +581,7 @@ func checkHistory(ctx *pbt.Ctx, c HistCase) error {
 		s.m.Out = append(s.m.Out, ref.Out{Sats: o.Sats, Script: append(pbt.Hex{}, o.Script...)})
 	}
 	s.tx = ref.ToLib(s.m)
-	s.fq = ref.FeeQuoteToLib(c.Quote)
+	s.fq = ref.FeeQuoteToLibTagged(c.Quote)
 	// satoshi amounts are uint64: every amount is in the domain as long as neither total overflows
 	inDomain := func() bool {
 		return ref.FeeSumIn(s.m).IsUint64() && ref.FeeSumOut(s.m).IsUint64() && !ref.Ambiguous(s.m)
@@ -617,6 +614,11 @@ func checkHistory(ctx *pbt.Ctx, c HistCase) error {
 			lab("op-skipped")
 		} else {
 			lab("op=" + op.Kind)
+			if op.Kind == "quote" && op.Tag == ref.FeeTagOther {
+				lab("quote-step:fee-type-field=other-type")
+			} else if op.Kind == "quote" && op.Tag == ref.FeeTagEmpty {
+				lab("quote-step:fee-type-field=empty")
+			}
 			if what != "" {
 				lab(what)
 			}
@@ -813,6 +815,7 @@ func genHOp(t *rapid.T, nin, nout int) HOp {
 	case "quote":
 		op.Data = rapid.Bool().Draw(t, "data")
 		op.Unit = genUnit(t, "unit")
+		op.Tag = genFeeTag(t, "tag")
 	case "rep": // element counts reach the three-byte prefix on one side only, or on both
 		total := rapid.SampledFrom([]int{251, 252, 253, 254}).Draw(t, "total")
 		if rapid.Bool().Draw(t, "side") {
